@@ -227,7 +227,72 @@ func c10One(o *out, p c10pred, bounds []*big.Int, tag string) {
 	}
 }
 
+// the same instant however it is written: in every zone of the valuer a date-only bound means midnight of that day
+// in that zone, exactly like its date-time spelling
+func c10Zones(o *out) {
+	zones := []*time.Location{time.UTC, time.FixedZone("plus5", 5*3600), time.FixedZone("minus8", -8*3600), time.FixedZone("half", 5*3600+1800)}
+	for _, loc := range zones {
+		for _, day := range []string{"2000-01-01", "2015-09-19", "1999-12-31", "2024-02-29"} {
+			for _, op := range []string{">=", ">", "<", "<=", "="} {
+				o.count("zones")
+				o.checked()
+				v := &influxql.NowValuer{Now: c10Now, Location: loc}
+				a, erra := influxql.ParseExpr("time " + op + " '" + day + "'")
+				b, errb := influxql.ParseExpr("time " + op + " '" + day + " 00:00:00'")
+				c, errc := influxql.ParseExpr("time " + op + " '" + day + "T00:00:00Z'")
+				if erra != nil || errb != nil || errc != nil {
+					continue
+				}
+				_, ta, e1 := influxql.ConditionExpr(a, v)
+				_, tb, e2 := influxql.ConditionExpr(b, v)
+				_, tc, e3 := influxql.ConditionExpr(c, v)
+				rp := map[string]interface{}{"op": "condition_zone", "text": "time " + op + " '" + day + "'", "zone": loc.String()}
+				if e1 != nil || e2 != nil || e3 != nil {
+					o.fail("", fmt.Sprintf("time %s '%s' in zone %s: %v %v %v", op, day, loc, e1, e2, e3), rp)
+					continue
+				}
+				d, _ := time.ParseInLocation("2006-01-02", day, loc)
+				want := d
+				if !ta.Min.Equal(tb.Min) || !ta.Max.Equal(tb.Max) {
+					o.fail("", fmt.Sprintf("in zone %s, time %s '%s' gives [%v, %v] but its date-time spelling '%s 00:00:00' gives [%v, %v]", loc, op, day, ta.Min, ta.Max, day, tb.Min, tb.Max), rp)
+					continue
+				}
+				got := ta.Min
+				if op == "<" || op == "<=" {
+					got = ta.Max
+				}
+				switch op {
+				case ">":
+					want = want.Add(time.Nanosecond)
+				case "<":
+					want = want.Add(-time.Nanosecond)
+				}
+				if !got.Equal(want) {
+					o.fail("", fmt.Sprintf("in zone %s, time %s '%s' bounds at %v, expected %v (midnight of that day in the zone)", loc, op, day, got, want), rp)
+				}
+				// an explicit Z is UTC whatever the zone
+				dz, _ := time.Parse("2006-01-02", day)
+				gz := tc.Min
+				if op == "<" || op == "<=" {
+					gz = tc.Max
+				}
+				wz := dz
+				switch op {
+				case ">":
+					wz = wz.Add(time.Nanosecond)
+				case "<":
+					wz = wz.Add(-time.Nanosecond)
+				}
+				if !gz.Equal(wz) {
+					o.fail("", fmt.Sprintf("in zone %s, time %s '%sT00:00:00Z' bounds at %v, expected %v", loc, op, day, gz, wz), rp)
+				}
+			}
+		}
+	}
+}
+
 func propC10(o *out, r *rng, thorough bool) {
+	c10Zones(o)
 	g := &c10gen{r: r}
 	n := 1500
 	if thorough {
@@ -259,6 +324,7 @@ func propC10(o *out, r *rng, thorough bool) {
 
 func init() {
 	props["C10"] = propC10
+	replayers["condition_zone"] = func(o *out, rp map[string]interface{}) { c10Zones(o) }
 	replayers["condition"] = func(o *out, rp map[string]interface{}) {
 		fmt.Println("replay of", rpStr(rp, "text"), "- the generated condition carries its own semantics; re-running the generator")
 		propC10(o, newRng(1), false)
